@@ -495,31 +495,35 @@ def run(tier, seed, only=None):
         bt.start()
         # (mode, fields, L, excluded known class or None)
         if not thorough:
-            cfgs = [(1, 1, 1, None), (1, 1, 1, "quote"), (0, 1, 3, None), (0, 2, 2, None)]
+            cfgs = [(1, 1, 1, None), (0, 1, 3, None), (0, 2, 2, None)]
         else:
-            cfgs = [(1, 1, 2, "quote"), (1, 1, 2, None), (1, 2, 1, "quote"), (0, 1, 5, None), (0, 2, 3, None), (0, 3, 2, None),
-                    (2, 1, 4, None), (2, 2, 2, None), (3, 1, 3, None), (3, 1, 3, "bracket"), (3, 2, 2, "bracket")]
+            cfgs = [(1, 1, 2, None), (1, 2, 1, None), (0, 1, 5, None), (0, 2, 3, None), (0, 3, 2, None),
+                    (2, 1, 4, None), (2, 2, 2, None), (3, 1, 3, None), (3, 2, 2, None)]
         preps = {}
         for cap in sorted(set(_cap_for(m, a, l) for m, a, l, x in cfgs) | ({16} if thorough else set())):
             preps[cap] = _prepare(work, cap)
         nlines = sum(p["nlines"] for p in preps.values())
         obls = []
-        for mode, arity, length, excl in cfgs:
+
+        def mk_ob(mode, arity, length, excl):
             mname, rfc, delim = MODES[mode]
             name = "%s:fields=%d:L=%d%s" % (mname, arity, length, ":excl-%s" % excl if excl else "")
-            if only and only not in name:
-                continue
             cap = _cap_for(mode, arity, length)
             pz = preps[cap]
             us = _profile(pz["prof"], pz["ids"], [rfc, ord(delim), arity, length])
             defs = ["LEN=%d" % length, "ARITY=%d" % arity, "RFC=%d" % rfc, "DELIM=%d" % ord(delim), 'KFILE="csv_k.c"'] + \
                    (["EXCL_QUOTE"] if excl == "quote" else []) + (["EXCL_BRACKET"] if excl == "bracket" else [])
-            obls.append(K.Obligation(name, [pz["h"]], defines=defs, unwind=length + 2, unwindset=us,
-                                     timeout=280 if not thorough else 900, includes=[pz["dir"]], mem_gb=10,
-                                     meta={"mode": mname, "rfc4180": bool(rfc), "delimiter": delim, "fields": arity, "L": length, "string_capacity": cap,
-                                           "excluded": {"quote": ["symbols containing '\"' (known quote-escape class)"],
-                                                        "bracket": ["symbols containing '[' or ']' (known comma-delimiter record-syntax class)"]}.get(excl, []),
-                                           "_mode": mode, "_kind": "sym"}))
+            return K.Obligation(name, [pz["h"]], defines=defs, unwind=length + 2, unwindset=us,
+                                timeout=280 if not thorough else 900, includes=[pz["dir"]], mem_gb=10,
+                                meta={"mode": mname, "rfc4180": bool(rfc), "delimiter": delim, "fields": arity, "L": length, "string_capacity": cap,
+                                      "excluded": {"quote": ["symbols containing '\"' (quote-escape class)"],
+                                                   "bracket": ["symbols containing '[' or ']' (comma-delimiter record-syntax class)"]}.get(excl, []),
+                                      "_mode": mode, "_kind": "sym", "_cfg": (mode, arity, length, excl)})
+        for mode, arity, length, excl in cfgs:
+            o = mk_ob(mode, arity, length, excl)
+            if only and only not in o.name:
+                continue
+            obls.append(o)
         if thorough:
             pz = preps[16]
             us = _profile(pz["prof"], pz["ids"], ["num"], margin=3)
@@ -530,76 +534,97 @@ def run(tier, seed, only=None):
                 obls.append(K.Obligation(name, [pz["h"]], defines=["NUM=%d" % num, 'KFILE="csv_k.c"'], unwind=14, unwindset=us, timeout=600, includes=[pz["dir"]],
                                          mem_gb=10, extra=["--external-sat-solver", "kissat"],
                                          meta={"mode": "number printer o Ram%sFromString" % nm.capitalize(), "_kind": "num", "_num": num, "_opt": True}))
-        K.run_all(obls, jobs=6)
-        # profile-guided bounds that turn out too small: only unwinding assertions fail -> raise those loops and re-run
-        for _round in range(4):
-            redo = []
-            for o in obls:
-                if o.verdict == "violated" and o.res.failed and all("unwinding assertion" in d for n_, d in o.res.failed):
-                    for n_, d in o.res.failed:
-                        m = re.match(r"(.*)\.unwind\.(\d+)$", n_)
-                        if m:
-                            lid = "%s.%s" % (m.group(1), m.group(2))
-                            o.unwindset[lid] = o.unwindset.get(lid, o.unwind or 2) + 2
-                    o.meta["unwind_refinements"] = o.meta.get("unwind_refinements", 0) + 1
-                    redo.append(o)
-            if not redo:
-                break
-            K.run_all(redo, jobs=6)
-        bt.join()
         found = {}
         dropped = []
-        for o in obls:
-            if o.verdict == "holds":
-                continue
-            if o.verdict != "violated":
-                if o.meta.get("_opt") and o.res is not None and o.res.status in ("timeout", "oom"):
-                    dropped.append("%s: no verdict (%s after %.0f s) — not part of the claim" % (o.name, o.res.status, o.res.time))
-                else:
-                    res.inconc("%s: %s" % (o.name, o.why))
-                continue
-            failed = "; ".join(sorted(set(d for n_, d in o.res.failed)))
-            ins = _inputs(o.res)
-            if not ins:
-                res.inconc("%s: counterexample (%s) but inputs not found in the trace" % (o.name, failed))
-                continue
-            rexe = _replay_exe(work)
-            reproduced = 0
-            for inp in ins:
-                if o.meta["_kind"] == "num":
-                    v = inp[1]
-                    txt = str(v - (1 << 32) if (o.meta["_num"] == 1 and v >= (1 << 31)) else v)
-                    args = ["0", "09", "i" if o.meta["_num"] == 1 else "u", txt.encode().hex()]
-                    cls = "numbers"
-                    shown = txt
-                else:
-                    mname, rfc, delim = MODES[o.meta["_mode"]]
-                    fields = inp[:o.meta["fields"]]
-                    args = [str(rfc), delim.encode().hex(), "s"] + [(f.hex() or "-") for f in fields]
-                    allb = b"".join(fields)
-                    if rfc and b'"' in allb:
-                        cls = "quote-escape"
-                    elif b"\r" in allb:
-                        cls = "carriage-return"
-                    elif b"[" in allb or b"]" in allb:
-                        cls = "bracket"
+        batch = list(obls)
+        K.run_all(batch, jobs=6)
+        # profile-guided bounds that turn out too small: only unwinding assertions fail -> raise those loops and re-run
+        def refine(batch):
+            for _round in range(4):
+                redo = []
+                for o in batch:
+                    if o.verdict == "violated" and o.res.failed and all("unwinding assertion" in d for n_, d in o.res.failed):
+                        for n_, d in o.res.failed:
+                            m = re.match(r"(.*)\.unwind\.(\d+)$", n_)
+                            if m:
+                                lid = "%s.%s" % (m.group(1), m.group(2))
+                                o.unwindset[lid] = o.unwindset.get(lid, o.unwind or 2) + 2
+                        o.meta["unwind_refinements"] = o.meta.get("unwind_refinements", 0) + 1
+                        redo.append(o)
+                if not redo:
+                    break
+                K.run_all(redo, jobs=6)
+
+        refine(batch)
+        bt.join()
+        twins = []
+
+        def process(batch):
+            for o in batch:
+                if o.verdict == "holds":
+                    continue
+                if o.verdict != "violated":
+                    if o.meta.get("_opt") and o.res is not None and o.res.status in ("timeout", "oom"):
+                        dropped.append("%s: no verdict (%s after %.0f s) — not part of the claim" % (o.name, o.res.status, o.res.time))
                     else:
-                        cls = "other"
-                    shown = repr(list(fields))
-                rc, out, err = sh([rexe] + args, timeout=20)
-                if rc == 3 and "MISMATCH" in out:
-                    reproduced += 1
-                    key = "%s:%s" % (o.meta["mode"] if o.meta["_kind"] == "sym" else "numbers", cls)
-                    if key not in found:
-                        desc = "%s: tuple %s does not survive write+read on the real classes:\n%s" % (o.name, shown, out.strip()[-700:])
-                        d = K.save_replay(PID, key, {"replay.cpp": REPLAY, "args.txt": " ".join(args) + "\n", "trace.txt": o.res.out[-30000:],
-                                                     "README": "g++ -std=c++17 -O1 -I $REPO/src/include -I $REPO/src replay.cpp -o r -lpthread && ./r $(cat args.txt)\n"
-                                                               "args: rfc4180(0/1) delimiter-hex type field-hex...\n%s\n" % desc})
-                        found[key] = d
-                        res.violation(key, desc.replace("\n", " | "), d)
-            if not reproduced:
-                K.save_replay(PID, o.name + ".unreplayed", {"trace.txt": o.res.out[-40000:], "README": "%s\n%s\ninputs %s\n" % (o.name, failed, ins)})
-                res.inconc("%s: solver counterexample(s) (%s) did not reproduce on the real classes: %s" % (o.name, failed[:200], ins[:3]))
+                        res.inconc("%s: %s" % (o.name, o.why))
+                    continue
+                failed = "; ".join(sorted(set(d for n_, d in o.res.failed)))
+                ins = _inputs(o.res)
+                if not ins:
+                    res.inconc("%s: counterexample (%s) but inputs not found in the trace" % (o.name, failed))
+                    continue
+                rexe = _replay_exe(work)
+                reproduced = 0
+                for inp in ins:
+                    if o.meta["_kind"] == "num":
+                        v = inp[1]
+                        txt = str(v - (1 << 32) if (o.meta["_num"] == 1 and v >= (1 << 31)) else v)
+                        args = ["0", "09", "i" if o.meta["_num"] == 1 else "u", txt.encode().hex()]
+                        cls = "numbers"
+                        shown = txt
+                    else:
+                        mname, rfc, delim = MODES[o.meta["_mode"]]
+                        fields = inp[:o.meta["fields"]]
+                        args = [str(rfc), delim.encode().hex(), "s"] + [(f.hex() or "-") for f in fields]
+                        allb = b"".join(fields)
+                        if rfc and b'"' in allb:
+                            cls = "quote-escape"
+                        elif b"\r" in allb:
+                            cls = "carriage-return"
+                        elif b"[" in allb or b"]" in allb:
+                            cls = "bracket"
+                        else:
+                            cls = "other"
+                        shown = repr(list(fields))
+                    rc, out, err = sh([rexe] + args, timeout=20)
+                    if rc == 3 and "MISMATCH" in out:
+                        reproduced += 1
+                        key = "%s:%s" % (o.meta["mode"] if o.meta["_kind"] == "sym" else "numbers", cls)
+                        if key not in found:
+                            desc = "%s: tuple %s does not survive write+read on the real classes:\n%s" % (o.name, shown, out.strip()[-700:])
+                            d = K.save_replay(PID, key, {"replay.cpp": REPLAY, "args.txt": " ".join(args) + "\n", "trace.txt": o.res.out[-30000:],
+                                                         "README": "g++ -std=c++17 -O1 -I $REPO/src/include -I $REPO/src replay.cpp -o r -lpthread && ./r $(cat args.txt)\n"
+                                                                   "args: rfc4180(0/1) delimiter-hex type field-hex...\n%s\n" % desc})
+                            found[key] = d
+                            res.violation(key, desc.replace("\n", " | "), d)
+                        # re-prove the rest with the reported class excluded by assumption (second round)
+                        excl = {"quote-escape": "quote", "bracket": "bracket"}.get(cls)
+                        if excl and o.meta["_kind"] == "sym" and o.meta["_cfg"][3] is None:
+                            cfg = o.meta["_cfg"][:3] + (excl,)
+                            if cfg not in [t.meta["_cfg"] for t in twins]:
+                                twins.append(mk_ob(*cfg))
+                if not reproduced:
+                    K.save_replay(PID, o.name + ".unreplayed", {"trace.txt": o.res.out[-40000:], "README": "%s\n%s\ninputs %s\n" % (o.name, failed, ins)})
+                    res.inconc("%s: solver counterexample(s) (%s) did not reproduce on the real classes: %s" % (o.name, failed[:200], ins[:3]))
+
+        process(batch)
+        if twins:
+            second = list(twins)
+            K.run_all(second, jobs=6)
+            refine(second)
+            obls += second
+            process(second)     # a violation of another class inside a twin is replayed and reported like any other
         for o in obls:
             for k in [k for k in o.meta if k.startswith("_")]:
                 o.meta.pop(k)
@@ -607,8 +632,8 @@ def run(tier, seed, only=None):
         res.coverage = {
             "explanation": "Engine K on verbatim slices of the CSV writer and reader (clang IR -> C -> CBMC): for every tuple of k symbols of <= L bytes each "
                            "over the full byte alphabet minus the bytes the mode cannot carry, the text produced by writeNextTupleCSV/outputSymbol is split "
-                           "and unquoted by readNextLine/nextElement into exactly the same symbols and nothing is left over. RFC 4180 mode is checked once "
-                           "as is and once with the known quote-escape class excluded by assumption, so another defect is still found. Counterexamples are "
+                           "and unquoted by readNextLine/nextElement into exactly the same symbols and nothing is left over. Where an obligation is violated by a symbol with a quote (RFC 4180) or a bracket (comma delimiter), "
+                           "the class is reported and a twin obligation with that class excluded by assumption re-proves the rest. Counterexamples are "
                            "replayed on the natively compiled real WriteStreamCSV / ReadStreamCSV classes.",
             "obligations": len(obls), "discharged": len(held),
             "violated_obligations": sum(1 for o in obls if o.verdict == "violated"),
